@@ -63,11 +63,12 @@ func isPart(id string) bool {
 	return false
 }
 
-// propOrder lists the claimed properties (parts excluded).
+// propOrder lists the claimed properties (parts and unvalidated work in
+// progress excluded).
 func propOrder() []string {
 	var ids []string
 	for id := range props {
-		if isPart(id) {
+		if isPart(id) || !readyIDs[id] {
 			continue
 		}
 		ids = append(ids, id)
